@@ -596,6 +596,11 @@ func (s *scanner) ReadArray() (array Array, err error) {
 			return nil, err
 		}
 		if buf[0] == ']' {
+			if len(array) > maxArrayLen {
+				return nil, &MalformedFileError{
+					Err: errors.New("array too long"),
+				}
+			}
 			break
 		}
 		if integersSeen >= 2 && buf[0] == 'R' {
@@ -624,7 +629,10 @@ func (s *scanner) ReadArray() (array Array, err error) {
 			integersSeen = 0
 		}
 
-		if len(array) >= maxArrayLen {
+		// A trailing reference "a b R" temporarily occupies two elements,
+		// so allow one element more than the limit here; the limit itself
+		// is enforced when the closing bracket is reached.
+		if len(array) > maxArrayLen {
 			return nil, &MalformedFileError{
 				Err: errors.New("array too long"),
 			}
